@@ -102,16 +102,26 @@ class ArrayValiditySpec(FunctionSpec):
     probe = "validity"
 
     def variants(self, tier):
-        return [(k, m) for k in ("list", "tuple", "ndarray") for m in ("check", "isvalid")]
+        # the verdict is memoised on the object (_is_valid / _validity_exception): a fresh memo for every
+        # container kind, and the two filled states (representation invariant MV assumed, see setup)
+        out = [(k, m, "memo-none") for k in ("list", "tuple", "ndarray") for m in ("check", "isvalid")]
+        out += [("list", m, memo) for m in ("check", "isvalid") for memo in ("memo-true", "memo-rejected")]
+        return out
 
     def setup(self, I, variant):
-        kind, mode = variant
+        kind, mode, memo = variant
         db, R = std_db(I)
         P = I.P
         install_invariants(P)
         q = simple_quantity(I, R, db, z3.Const("c", NameS), z3.Const("u", NameS))
         vals = nan_seq(P, {"list": "list", "tuple": "tuple", "ndarray": "numpy.ndarray"}[kind])
         a = array_obj(I, db, q, vals)
+        if memo == "memo-true":
+            a.o.fields["_is_valid"] = SBool(True)
+        elif memo == "memo-rejected":
+            a.o.fields["_is_valid"] = SBool(False)
+            ecls = I.repo.cls("barril.units.exceptions:QuantityValidationError")
+            a.o.fields["_validity_exception"] = I.instantiate(ecls, [SStr("stored"), SStr("caption"), SNum(z3.Real("stored_value"), "float"), SStr(">="), SNum(z3.Real("stored_limit"), "float")], {})
         st = R.snapshot()
         # C01: conversions inside a quantity type are strictly increasing (row obligations + composition lemma)
         c, u = q.o.qinfo["c"], q.o.qinfo["u"]
@@ -119,7 +129,13 @@ class ArrayValiditySpec(FunctionSpec):
         tbt = q.o.fields["_tobase"].t
         conv = lambda t: app(S(st["U_fb"], du), app(tbt, t))
         name = "CheckValidity" if mode == "check" else "IsValid"
-        return {"f": I.getattr(a, name), "args": [], "R": R, "st": st, "self": a, "q": q, "vals": vals, "mode": mode, "conv": conv, "snap": dict(a.o.fields), "qsnap": quantity_snapshot(q), "elems0": vals.elems, "n0": vals.n}
+        ctx = {"f": I.getattr(a, name), "args": [], "R": R, "st": st, "self": a, "q": q, "vals": vals, "mode": mode, "conv": conv, "snap": dict(a.o.fields), "qsnap": quantity_snapshot(q), "elems0": vals.elems, "n0": vals.n, "memo": memo}
+        # MV (representation invariant of Arrays): a stored verdict is the verdict of the stored values
+        if memo != "memo-none":
+            L, allok = self.all_ok(I, ctx)
+            accept = z3.Or(z3.And(L["min_none"], L["max_none"]), allok)
+            P.assume(accept if memo == "memo-true" else z3.Not(accept), "pre:MV the memoised verdict is the verdict of the stored values")
+        return ctx
 
     def all_ok(self, I, ctx):
         st, q, vals = ctx["st"], ctx["q"], ctx["vals"]
@@ -166,10 +182,26 @@ class ArrayValiditySpec(FunctionSpec):
     def extra_obligations(self, I, ctx, outcome):
         v = ctx["self"].o.fields.get("_value")
         same = z3.And(v.n == ctx["n0"], v.elems == ctx["elems0"]) if isinstance(v, symseq.SymSeq) and v.token == ctx["vals"].token else F
+        # MV preserved: whatever the memo holds afterwards is the verdict of the stored values
+        f = ctx["self"].o.fields
+        L, allok = self.all_ok(I, ctx)
+        accept = z3.Or(z3.And(L["min_none"], L["max_none"]), allok)
+        x, y = z3.Reals("x!mono y!mono")
+        conv = ctx["conv"]
+        mono = z3.ForAll([x, y], z3.Implies(x < y, conv(x) < conv(y)), patterns=[z3.MultiPattern(conv(x), conv(y))])
+        iv, ve = f.get("_is_valid"), f.get("_validity_exception")
+        mv = []
+        if isinstance(iv, SBool) and iv.concrete() is True:
+            mv.append(accept)
+        elif iv is not SNone and not (isinstance(iv, SBool) and iv.concrete() is False):
+            mv.append(F)
+        if ve is not SNone:
+            mv.append(z3.Not(accept))
         return [
             ("frame[values unchanged]", ("C13",), same),
             ("frame[quantity unchanged]", ("C07", "C13"), quantity_unchanged(I, ctx["q"], ctx["qsnap"])),
             ("frame[registry unchanged]", ("C15",), not ctx["R"].writes),
+            ("inv[MV: a memoised verdict is the verdict of the stored values]", ("C12",), z3.Implies(mono, And(mv))),
         ]
 
     def allowed_write(self, I, ctx, obj, what):
@@ -212,3 +244,99 @@ class ScalarValiditySpec(FunctionSpec):
             return cs
         accept = Or([c.guard for c in cs if c.kind == "return"])
         return [ret("valid-iff-the-amount-satisfies-the-limits", T, check=lambda I, res: (to_z3b(res.t) == accept) if isinstance(res, SBool) else F)]
+
+
+
+def accept_of(I, R, st, q, vals):
+    """'every (non-NaN) amount of vals, in the default unit of q's category, satisfies the category's limits'
+    for a simple quantity q (derived quantities are always valid)"""
+    info = getattr(q.o, "qinfo", None) or {}
+    if info.get("kind") == "derived" or "c" not in info:
+        return T
+    c, u = info["c"], info["u"]
+    L = limit_terms(R, st, c)
+    du = S(st["C_du"], c)
+    tbt = q.o.fields["_tobase"].t
+    j = z3.Int("j!ok2")
+    v = S(vals.elems, j)
+    y = SNum(z3.If(u == du, v, app(S(st["U_fb"], du), app(tbt, v))), "float")
+    okmin, okmax = limits_ok(I, L, y)
+    nan = vals.extended[0] if vals.extended is not None else z3.K(IntS, F)
+    allok = z3.ForAll([j], z3.Implies(z3.And(j >= 0, j < vals.n, z3.Not(S(nan, j))), z3.And(okmin, okmax)))
+    return z3.Or(z3.And(L["min_none"], L["max_none"]), allok)
+
+
+@register
+class ArrayCopyMemoSpec(FunctionSpec):
+    """Array.CreateCopy (values / unit / category forms) on an Array whose validity verdict is already
+    memoised: the copy satisfies the representation invariant MV - whatever verdict it carries is the verdict
+    of ITS values under ITS category (the real code starts every copy with an empty memo)."""
+
+    fq = AR + ".CreateCopy"
+    key = AR + ".CreateCopy#validity-memo"
+    props = ("C12",)
+    callees = BASE_CALLEES
+    probe = "validity"
+
+    def variants(self, tier):
+        return [(memo, form) for memo in ("memo-none", "memo-true", "memo-rejected") for form in ("plain", "unit", "unit-category", "values")]
+
+    def setup(self, I, variant):
+        memo, form = variant
+        db, R = std_db(I)
+        P = I.P
+        symseq.install(P)
+        q = simple_quantity(I, R, db, z3.Const("c", NameS), z3.Const("u", NameS))
+        vals = symseq.fresh_seq(P, "list")
+        vals.region = "param"
+        a = array_obj(I, db, q, vals)
+        st = R.snapshot()
+        if memo == "memo-true":
+            a.o.fields["_is_valid"] = SBool(True)
+            P.assume(accept_of(I, R, st, q, vals), "pre:MV the memoised verdict is the verdict of the stored values")
+        elif memo == "memo-rejected":
+            ecls = I.repo.cls("barril.units.exceptions:QuantityValidationError")
+            a.o.fields["_is_valid"] = SBool(False)
+            a.o.fields["_validity_exception"] = I.instantiate(ecls, [SStr("stored"), SStr("caption"), SNum(z3.Real("stored_value"), "float"), SStr(">="), SNum(z3.Real("stored_limit"), "float")], {})
+            P.assume(z3.Not(accept_of(I, R, st, q, vals)), "pre:MV the memoised verdict is the verdict of the stored values")
+        kw = {}
+        if form in ("unit", "unit-category"):
+            kw["unit"] = nm("unit2")
+            R.touch(kw["unit"].name)
+        if form == "unit-category":
+            kw["category"] = nm("category2")
+            R.touch(kw["category"].name)
+        if form == "values":
+            nv = symseq.fresh_seq(P, "list", base="newvals")
+            kw["values"] = nv
+        f = harness(lambda I: I.call(I.getattr(a, "CreateCopy"), [], kw))
+        return {"f": f, "args": [], "R": R, "st": R.snapshot(), "self": a, "q": q}
+
+    def cases(self, I, ctx):
+        R, st = ctx["R"], ctx["st"]
+
+        def chk(I, res):
+            if not (isinstance(res, SRef) and isinstance(res.o, HObj) and getattr(res.o.cls, "name", "") == "Array"):
+                return F
+            f = res.o.fields
+            iv, ve, rq, rv = f.get("_is_valid"), f.get("_validity_exception"), f.get("_quantity"), f.get("_value")
+            if iv is SNone and ve is SNone:
+                return T
+            if not (isinstance(rv, symseq.SymSeq) and isinstance(rq, SRef)):
+                return F
+            acc = accept_of(I, R, st, rq, rv)
+            conj = []
+            if isinstance(iv, SBool) and iv.concrete() is True:
+                conj.append(acc)
+            elif iv is not SNone and not (isinstance(iv, SBool) and iv.concrete() is False):
+                return F
+            if ve is not SNone:
+                conj.append(z3.Not(acc))
+            return And(conj)
+
+        return [Case("copy-carries-only-its-own-verdict (MV)", T, "if-returns", check=chk, props=("C12",))]
+
+    def allowed_write(self, I, ctx, obj, what):
+        if getattr(obj, "region", "") == "quantity" and what[1] in LAZY_SLOTS:
+            return True
+        return FunctionSpec.allowed_write(self, I, ctx, obj, what)
